@@ -155,7 +155,7 @@ def session(d, args=(), stdin=None, env=None, noplug=True, xdist=False, preexec=
 def cold_session(d, args=(), stdin=b"", env=None, noplug=True, hashseed="0", timeout=300):
     """python -m pytest in a cold interpreter (reference for the fork server, C16, C19)."""
     e = {}
-    for k in ("PATH", "LANG", "LC_ALL", "TMPDIR"):
+    for k in ("PATH", "LANG", "LC_ALL", "TMPDIR") + (("PYTHONPATH", "MC_REPO") if "MC_REPO" in os.environ else ()):
         if k in os.environ:
             e[k] = os.environ[k]
     e.update({"HOME": warm.EMPTY_HOME, "XDG_CONFIG_HOME": warm.EMPTY_HOME, "PYTHONHASHSEED": str(hashseed),
